@@ -257,7 +257,12 @@ EnvelopeLine ==
                   /\ TwoPhase("C05", E.kind \o " point line", <<info, k>>, r, TolBubble)
                   /\ CSameX("C05.specification_kept", <<info, k, "composition">>, IF E.kind = "bubble" THEN P[k].l ELSE P[k].v, E.z, "1e-12")
                   \* between the critical temperature and the cricondentherm a composition has two dew points: compared only below T_c
-                  /\ ((Has(P[k], "alone") /\ FLt(P[k].v.T, FMul("0.99", P[n].v.T))) => Agree("C12.envelope_point_equals_standalone", <<info, k>>, r, P[k].alone, TolGuess)))
+                  /\ ((Has(P[k], "alone") /\ FLt(P[k].v.T, FMul("0.99", P[n].v.T))) =>
+                        \* failure signature of its own (call site: temperature-specified bubble / dew point WITHOUT an initial pressure): the stand-alone
+                        \* solve returns Ok at a vanishing pressure (both phases ideal gases of almost zero density) - listed as a known finding by call site
+                        IF P[k].alone.ok /\ FLt(P[k].alone.v.p, FMul("1e-30", P[k].v.p))
+                        THEN Report("C12.standalone_point_collapsed_to_zero_pressure", <<info, k, P[k].v.T, P[k].v.p, P[k].alone.v.p, l>>, FALSE)
+                        ELSE Agree("C12.envelope_point_equals_standalone", <<info, k>>, r, P[k].alone, TolGuess)))
             /\ (E.kind = "spinodal" =>
                   /\ Report("C06.spinodal_line_equal_T", <<info, k, l>>, EqualT(P[k].v, P[k].l))
                   /\ Chk("C06.spinodal_eigenvalue", <<info, k, "vapor side", l>>, LamMin(P[k].v), "0", "1", "0", "1e-6")
